@@ -276,7 +276,7 @@ func runC03(c *Ctx) {
 	// ---- C03.4 serve raw bytes from storage
 	for _, name := range []string{"RecordsAfter", "RecordsBefore"} {
 		fn := p.Func(aclList + ":(*aclList)." + name)
-		fns := append([]*ssa.Function{fn}, fn.AnonFuncs...)
+		fns := regionFuncs(fn) // closures, and helpers new since the snapshot (e.g. the iterator built by a factory)
 		bad := ""
 		recordsF := p.Field(aclList + ":aclList.records")
 		if len(FieldReads(fns, recordsF)) > 0 {
